@@ -19,3 +19,9 @@ OBLIGATIONS = [
   O('C18.c-pip-4', 'c18_pip.cpp', 'harness_pip', defs=['NV=4'], unwind=10, olevel='INL', replace={CP3: 'stub_cp'},
     bound='quadrilaterals (any, incl. self-intersecting), |coord|<=2^25', desc='PointInPolygon exact', tiers='t', timeout=1800),
 ]
+OBLIGATIONS += [
+  O('C18.d-parallel-known', 'c18_segpt.cpp', 'harness_segpt_parallel', backend=['kissat', 'cadical', 'z3'], timeout=600, tiers='qt',
+    bound='|coord|<=2^40, direction components not all below 2^26', desc='search for "GetSegmentIntersectPt reports parallel although the exact determinant is non-zero" (recorded known finding: products above 2^53 round to the same double)'),
+  O('C18.d-parallel-known-hiprec', 'c18_segpt.cpp', 'harness_segpt_parallel', defs=['CLIPPER2_HI_PRECISION=1'], backend=['kissat', 'cadical', 'z3'], timeout=600, tiers='t',
+    bound='as above, CLIPPER2_HI_PRECISION variant', desc='same for the high-precision variant'),
+]
